@@ -51,7 +51,7 @@ COMMENTS = ["/* c */", "/**/", "/* a\nb */", "/* a\r\nb\n\n*/", "/* * / ** /*/",
             "/* EXPECT:foo*/ still */", "/*/ x */", "/* \"q */", "//\"\n", "/* // */"]
 DECLS = ["int a = 1;", "const int N = 3;", "bool b;", "int f(int x) { return x + 1; }", "typedef int[0,3] t_t;", "clock c;", "chan d;",
          "int arr[3] = {1,2,3};", "struct { int u; } s;"]
-PARTS_FOR_LEX = [1, 1, 1, 1, 2, 3, 12, 13, 9, 11, 6, 5, 8, 10]   # xta_part_t values; S_DECLARATION most often
+PARTS_FOR_LEX = [1, 1, 1, 1, 2, 3, 12, 13, 9, 11, 6, 5, 10]   # xta_part_t values; S_DECLARATION most often (S_SELECT outside an edge crashes: C01)
 
 
 def gen_lex_text(r, big):
@@ -119,7 +119,7 @@ def run_lex_correspondence(ctx, exe):
     drv_in = "".join("L %d %d %s\n" % (cases[i][0], impl[i]["c"], hexs(cases[i][2])) for i in range(len(cases)))
     rc2, out2, err2, dt2 = core.run_exe(core.lean_exe("drv_c06"), [], stdin_text=drv_in, timeout=900)
     model = out2.split("\n")
-    dis, nl_in_str, full, with_nl, multi = [], 0, 0, 0, 0
+    dis, nl_in_str, full, with_nl, multi, ndiag = [], 0, 0, 0, 0, 0
     strnl = []
     for i, (nx, part, t) in enumerate(cases):
         im = impl[i]
@@ -134,11 +134,18 @@ def run_lex_correspondence(ctx, exe):
             multi += 1
         if got != exp:
             dis.append({"newxta": nx, "part": part, "text_hex": hexs(t), "impl": got, "model": exp})
+        # every diagnostic of a non-empty block lies inside the block, start <= end (C06 (4), observed on the real library)
+        for msg, ps, pe, sl, sc, el, ec, path in im["all"]:
+            ndiag += 1
+            if len(tb) > 0 and not (0 <= ps <= pe <= len(tb)):
+                ctx.finding("diag-outside-block:" + msg_class(msg), "diagnostic %r of a block of %d bytes has the range [%d,%d) relative to the block"
+                            % (msg, len(tb), ps, pe), {"op": "L", "newxta": nx, "part": part, "text_hex": hexs(t), "result": im})
     cov["lex_cases"] = len(cases)
     cov["lex_disagreements"] = len(dis)
     cov["lex_fully_consumed"] = full
     cov["lex_with_newline_entries"] = with_nl
     cov["lex_with_3plus_entries"] = multi
+    cov["lex_diagnostics_range_checked"] = ndiag
     cov["lex_samples"] = [{"text": cases[i][2][:80], "impl": "c=%d tab=%s errs=%s" % (impl[i]["c"], impl[i]["tab"], impl[i]["errs"]),
                            "model": model[i]} for i in (4, len(cases) // 2, len(cases) - 1)]
     if dis:
@@ -191,6 +198,25 @@ def crash_site(err):
     return m.group(1).replace(" ", "_") if m else "unknown"
 
 
+def run_batch(exe, ops):
+    """One harness process for many ops; a crash (signal, sanitizer report, glibcxx assertion) is recorded for the op that
+    caused it and the batch continues with the next op in a new process.  Returns (result lines, [(index, rc, stderr)])."""
+    lines, start, crashes = [], 0, []
+    while start < len(ops):
+        stdin = "".join("XT 1 %s\n" % hexs(x) for _, x in ops[start:])
+        rc, out, err, dt = core.run_exe(exe, [], stdin_text=stdin, timeout=1500)
+        got = [l for l in out.split("\n") if l.strip()][:len(ops) - start]
+        lines += got
+        start += len(got)
+        if start < len(ops):
+            crashes.append((start, rc, err[-3000:]))
+            lines.append(json.dumps({"rc": rc, "exc": "", "crashed": True, "diags": [], "has_errors": True}))
+            start += 1
+            if len(crashes) > 80:
+                break
+    return lines, crashes
+
+
 def fault_ops(ctx):
     """(description, xml) for every (seed, block, token position, fault kind); layouts rotate in the quick tier."""
     ops = []
@@ -201,6 +227,9 @@ def fault_ops(ctx):
         for li, layout in enumerate(M.LAYOUTS):
             ov = {b.key: M.relayout(b.text, layout, li) for b in blocks}
             ops.append(({"seed": mi, "what": "layout-only", "layout": layout}, M.render(m, ov)))
+        # structural faults: diagnostics attached to elements; only the per-diagnostic oracle applies
+        for desc, x in M.structural_variants(m, M.render(m)):
+            ops.append(({"seed": mi, "what": "structural", "kind": desc}, x))
         for bi, blk in enumerate(blocks):
             for li, layout in enumerate(M.LAYOUTS):
                 text0 = M.relayout(blk.text, layout, bi)
@@ -220,7 +249,7 @@ def fault_ops(ctx):
 STRING_NEWLINE_WITNESS = "const string zstr = \"a\nb\";\nint zq = zzq7;\n"
 
 
-def run_faults(ctx, exe):
+def run_faults(ctx, exe, exe_asan=None):
     cov = ctx.coverage
     ops = fault_ops(ctx)
     # witness of the exception shape string-newline (replayed on the real library every run)
@@ -232,30 +261,36 @@ def run_faults(ctx, exe):
     # witness of xpath-name:LSC: the LSC test model of the repository with an undeclared identifier in a condition label
     lsc_path = os.path.join(core.REPO, "test", "models", "lsc_example.xml")
     if os.path.exists(lsc_path):
-        ops.append(({"what": "witness:lsc", "seed": "lsc_example.xml"}, open(lsc_path, encoding="utf-8").read()))
-    # one harness process for many ops; a crash (sanitizer report, glibcxx assertion) is recorded for the op that caused it
-    # and the batch continues with the next op in a new process
-    lines, start, crashes = [], 0, []
-    while start < len(ops):
-        stdin = "".join("XT 1 %s\n" % hexs(x) for _, x in ops[start:])
-        rc, out, err, dt = core.run_exe(exe, [], stdin_text=stdin, timeout=1500)
-        got = [l for l in out.split("\n") if l.strip()]
-        lines += got[:len(ops) - start]
-        start += len(got)
-        if start < len(ops):
-            crashes.append((start, rc, err[-3000:]))
-            lines.append(json.dumps({"rc": rc, "exc": "", "crashed": True, "diags": [], "has_errors": True}))
-            start += 1
-            if len(crashes) > 60:
-                break
+        lsc = open(lsc_path, encoding="utf-8").read()
+        if "x &gt;= a</label>" in lsc:
+            ops.append(({"what": "witness:lsc", "seed": "lsc_example.xml", "kind": "undeclared", "ident": "zzq9"},
+                        lsc.replace("x &gt;= a</label>", "x &gt;= zzq9</label>", 1)))
+    lines, crashes = run_batch(exe, ops)
     for k, rc, err in crashes:
         d = ops[k][0]
-        ctx.finding("crash:%s:%s" % (d.get("kind", d["what"]), crash_site(err)),
+        # the site of the crash comes from the sanitizer build (the bulk run uses the plain build)
+        if exe_asan and exe_asan != exe:
+            rc_a, _, err_a, _ = core.run_exe(exe_asan, [], stdin_text="XT 1 %s\n" % hexs(ops[k][1]), timeout=120)
+            if rc_a != 0:
+                rc, err = rc_a, err_a[-3000:]
+        ctx.finding("crash:" + crash_site(err),
                     "the library crashed (rc=%s) on a model with a single %s fault in %s" % (rc, d.get("kind", d["what"]), d.get("canon")),
                     {"op": d, "xml_hex": hexs(ops[k][1]), "stderr": err, "entry": "parse_XML_buffer(xml, Document*, newxta=true)"})
     if len(lines) < len(ops):
         ctx.proof_broken("fault-injection", "too many crashes (%d), run abandoned" % len(crashes), "fault injection")
         return
+    # a seeded sample of the same ops under ASan+UBSan+_GLIBCXX_ASSERTIONS: memory errors are results too
+    if exe_asan and exe_asan != exe:
+        step = max(1, len(ops) // (150 if not ctx.thorough else 1500))
+        sample = ops[ctx.seed % step::step]
+        _, crashes_a = run_batch(exe_asan, sample)
+        for k, rc, err in crashes_a:
+            d = sample[k][0]
+            ctx.finding("crash:" + crash_site(err),
+                        "the library crashed under the sanitizers (rc=%s) on a model with a single %s fault in %s" % (rc, d.get("kind", d["what"]), d.get("canon")),
+                        {"op": d, "xml_hex": hexs(sample[k][1]), "stderr": err, "entry": "parse_XML_buffer(xml, Document*, newxta=true)"})
+        cov["asan_sample_ops"] = len(sample)
+        cov["asan_sample_crashes"] = len(crashes_a)
     res = [json.loads(l) for l in lines[:len(ops)]]
     stats = {"ops": len(ops), "benign": 0, "faults_with_errors": 0, "diags": 0, "diags_oracle_ok": 0, "by_kind": {}, "by_layout": {},
              "by_block_kind": {}, "messages": {}, "typechecker_diags": 0, "exact_ranges_checked": 0}
@@ -266,7 +301,9 @@ def run_faults(ctx, exe):
         errs = [x for x in r["diags"] if x["k"] == "E"]
         if r.get("crashed"):
             continue
-        if r["exc"]:
+        if r["exc"] and what == "structural":
+            stats["structural_exceptions"] = stats.get("structural_exceptions", 0) + 1
+        elif r["exc"]:
             ctx.finding("exception:" + r["exc"].split(":")[0] + ":" + str(d.get("kind", what)),
                         "parse_XML_buffer ended in %s for a single %s fault" % (r["exc"], d.get("kind", what)),
                         {"op": d, "xml_hex": hexs(xml), "result": r})
@@ -291,7 +328,10 @@ def run_faults(ctx, exe):
                 ctx.finding("layout-not-neutral:" + d["layout"], "a layout-only rewrite (%s) produced diagnostics: %s" % (d["layout"], r["diags"][0]["msg"]),
                             {"op": d, "xml_hex": hexs(xml), "result": r})
             continue
-        if what == "witness:lsc":
+        if what in ("witness:lsc", "structural"):
+            if what == "structural":
+                stats["structural_ops"] = stats.get("structural_ops", 0) + 1
+                stats["structural_diags"] = stats.get("structural_diags", 0) + len(r["diags"])
             continue
         # --- the fault must be located ---------------------------------------------------------------------------
         kind = d["kind"]
@@ -315,7 +355,7 @@ def run_faults(ctx, exe):
             ctx.finding("label-leak:%s:%s:%s" % (kind, d["label_kind"], msg_class(outside[0]["msg"])),
                         "a %s fault in the %s label %s is also reported at %s (%s)" % (kind, d["label_kind"], d["canon"], outside[0]["path"], outside[0]["msg"]),
                         replay)
-        if kind == "undeclared" and "ident" in d:
+        if kind == "undeclared" and "ident" in d and d.get("block_kind") != "instantiation":
             stats["exact_ranges_checked"] += 1
             line, col = M.line_col(d["text"], d["off"])
             want = (line, col, line, col + len(d["ident"]))
@@ -378,6 +418,8 @@ def run(ctx):
         ctx.log("translator failed:", ex)
     b = core.build_repo("asan")
     exe = core.build_harness(b, "c06", ["c06.cpp"])
+    bp = core.build_repo("plain")
+    exe_plain = core.build_harness(bp, "c06p", ["c06.cpp"])
     # 2 prove ---------------------------------------------------------------------------------------------------
     ok, log = ctx.prove(MODULE, ["drv_c06"])
     if not ok:
@@ -390,7 +432,7 @@ def run(ctx):
     if not os.path.exists(core.lean_exe("drv_c06")):
         return
     run_lex_correspondence(ctx, exe)
-    stats = run_faults(ctx, exe) or {}
+    stats = run_faults(ctx, exe_plain, exe) or {}
     cov["evaluations"] = cov.get("lex_cases", 0) + stats.get("ops", 0)
     cov["distinct_nontrivial"] = cov.get("lex_with_newline_entries", 0) + stats.get("faults_with_errors", 0)
     cov["correspondence_cases"] = cov.get("lex_cases", 0) + stats.get("xpath_cases", 0) + stats.get("lexer_level_predictions", 0)
